@@ -1882,6 +1882,25 @@ static void get_user_data (interactive_t* ip, io_event_t* evt) {
       break;
 
     case PORT_ASCII:
+      /* No protocol overhead - use full buffer. A partial line is kept in the
+       * buffer between reads; make room for more by shifting it to the start,
+       * and discard a line that fills the whole buffer without a newline.
+       */
+      text_space = MAX_TEXT - ip->text_end - 1;
+      if (text_space == 0)
+        {
+          size_t len = ip->text_end - ip->text_start;
+
+          if (ip->text_start > 0)
+            memmove (ip->text, ip->text + ip->text_start, len);
+          else
+            len = 0;
+          ip->text_start = 0;
+          ip->text_end = len;
+          text_space = MAX_TEXT - ip->text_end - 1;
+        }
+      break;
+
     case PORT_BINARY:
     default:
       /* No protocol overhead - use full buffer */
@@ -2005,8 +2024,9 @@ static void get_user_data (interactive_t* ip, io_event_t* evt) {
             char *nl, *str;
             char *p = ip->text + ip->text_start;
 
-            memcpy (p, buf, num_bytes);
-            ip->text_end = ip->text_start + num_bytes;
+            /* append to the partial line left by earlier reads */
+            memcpy (ip->text + ip->text_end, buf, num_bytes);
+            ip->text_end += num_bytes;
             while ((nl = memchr (p, '\n', ip->text_end - ip->text_start)))
               {
                 ip->text_start = (nl + 1) - ip->text;
